@@ -69,8 +69,13 @@ def applyFn (fn : SX) (v : Val) : Val :=
   | "const", [k] => .int k.toInt
   | _, _ => v
 
-def applyPred (p : SX) (v : Val) : Bool :=
+partial def applyPred (p : SX) (v : Val) : Bool :=
   match p.head, p.args with
+  | "or", [a, b] => applyPred a v || applyPred b v
+  | "and", [a, b] => applyPred a v && applyPred b v
+  | "not", [a] => !applyPred a v
+  | "nth", [k, q] => match v.toList[k.toNat]? with | some x => applyPred q x | none => false
+  | "last", [q] => match v.toList.getLast? with | some x => applyPred q x | none => false
   | "true", _ => true
   | "false", _ => false
   | "lt", [k] => valInt v < k.toInt
@@ -90,49 +95,50 @@ def VEnv.get (env : VEnv) (x : String) : Val := ((env.find? (·.1 == x)).map (·
 
 /-- thresholds: the measured table (regenerated from the source on every run) and IEEE
     arithmetic for parameter-dependent ones; fuel far above any buffer the harness sends -/
-def theEnv : Env := ⟨Rapid.Generated.ft, floatRT 30, 100000⟩
+def envOf (sa : Bool) : Env := ⟨Rapid.Generated.ft, floatRT 30, 100000, sa⟩
+def theEnv : Env := envOf false
 
 mutual
 /-- every Spec generator is `asAny(<native>)` on the Go side: one extra standalone group -/
-partial def compileGen (g : SX) : Gen :=
-  .deferred (compileNative g)
+partial def compileGen (sa : Bool) (g : SX) : Gen :=
+  .asAny (compileNative sa g)
 
-partial def compileNative (g : SX) : Gen :=
+partial def compileNative (sa : Bool) (g : SX) : Gen :=
   match g.head, g.args with
   | "bool", _ => .bool
-  | "u", [lo, hi] => .deferred (.uint lo.toU64 hi.toU64)   -- Go side: Map(Uint64Range, normalise)
+  | "u", [lo, hi] => .map (.uint lo.toU64 hi.toU64) id    -- Go side: Map(Uint64Range, normalise)
   | "i", [lo, hi] => .int lo.toI64 hi.toI64
   | "sampled", [n] => .sampled n.toNat
-  | "oneof", gs => .oneOf gs.length (fun i => compileGen (gs.getD i (.list [])))
-  | "filter", [g, p] => .filter (compileGen g) (applyPred p)
-  | "map", [g, f] => .map (compileGen g) (applyFn f)
-  | "slice", [e, lo, hi] => .slice (compileGen e) lo.toInt hi.toInt
-  | "distinct", [e, lo, hi, f] => .distinct (compileGen e) lo.toInt hi.toInt (applyFn f)
-  | "mapof", [k, v, lo, hi] => .mapOf (compileGen k) (compileGen v) lo.toInt hi.toInt
-  | "mapvals", [v, lo, hi, f] => .mapOfValues (compileGen v) lo.toInt hi.toInt (applyFn f)
-  | "ptr", [e, b] => .ptr (compileGen e) b.isTrue
+  | "oneof", gs => .oneOf gs.length (fun i => compileGen sa (gs.getD i (.list [])))
+  | "filter", [g, p] => .filter (compileGen sa g) (applyPred p)
+  | "map", [g, f] => .map (compileGen sa g) (applyFn f)
+  | "slice", [e, lo, hi] => .slice (compileGen sa e) lo.toInt hi.toInt
+  | "distinct", [e, lo, hi, f] => .distinct (compileGen sa e) lo.toInt hi.toInt (applyFn f)
+  | "mapof", [k, v, lo, hi] => .mapOf (compileGen sa k) (compileGen sa v) lo.toInt hi.toInt
+  | "mapvals", [v, lo, hi, f] => .mapOfValues (compileGen sa v) lo.toInt hi.toInt (applyFn f)
+  | "ptr", [e, b] => .ptr (compileGen sa e) b.isTrue
   | "perm", [n] => .perm n.toNat
-  | "custom", body => .custom (compileStmts body [] (fun _ => .ret .nil))
-  | "deferred", [g] => .deferred (compileGen g)
+  | "custom", body => .custom (compileStmts sa body [] (fun _ => .ret .nil))
+  | "deferred", [g] => .deferred (compileGen sa g)
   | "runes", rs => .runeFrom (rs.map SX.toInt)
-  | "string", [e, lo, hi, ml] => .stringOf (compileNative e) lo.toInt hi.toInt ml.toInt
+  | "string", [e, lo, hi, ml] => .stringOf (compileNative sa e) lo.toInt hi.toInt ml.toInt
   | _, _ => .bool
 
 /-- statements in continuation-passing style; `k env` continues after the list.
     `(ret x)` ends the list with the value of `x`. -/
-partial def compileStmts (ss : List SX) (env : VEnv) (k : VEnv → Prog) : Prog :=
+partial def compileStmts (sa : Bool) (ss : List SX) (env : VEnv) (k : VEnv → Prog) : Prog :=
   match ss with
   | [] => k env
   | s :: rest =>
-    let next := fun env => compileStmts rest env k
+    let next := fun env => compileStmts sa rest env k
     match s.head, s.args with
     | "draw", [.atom x, g] =>
-        (compileGen g).draw theEnv (fun v => next ((x, v) :: env))
+        (compileGen sa g).draw (envOf sa) (fun v => next ((x, v) :: env))
     | "if", (c :: body) =>
         let holds := match c with
           | .list (op :: .atom x :: ks) => applyPred (.list (op :: ks)) (env.get x)
           | _ => false
-        if holds then compileStmts body env (fun env' => next env') else next env
+        if holds then compileStmts sa body env (fun env' => next env') else next env
     | "fatal", [n] => Prog.fatal s!"f{n.toNat}" n.toNat
     | "failnow", [n] => Prog.fatal "(*T).FailNow() called" n.toNat
     | "error", [n] => .errorf s!"e{n.toNat}" (next env)
@@ -148,10 +154,10 @@ partial def compileStmts (ss : List SX) (env : VEnv) (k : VEnv → Prog) : Prog 
     | "repeat", parts =>
         let acts := parts.filter (·.head == "act")
         let chk := match parts.find? (·.head == "check") with
-          | some c => compileStmts c.args env (fun _ => .ret .nil)
+          | some c => compileStmts sa c.args env (fun _ => .ret .nil)
           | none => .ret .nil
-        (smRepeat theEnv acts.length
-          (fun i => compileStmts ((acts.getD i (.list [])).args) env (fun _ => .ret .nil)) chk)
+        (smRepeat (envOf sa) acts.length
+          (fun i => compileStmts sa ((acts.getD i (.list [])).args) env (fun _ => .ret .nil)) chk)
           >>- fun _ => next env
     | "ret", [.atom x] => .ret (env.get x)
     | _, _ => next env
@@ -178,7 +184,7 @@ end
 
 def compileProg (p : SX) : Prog :=
   match p with
-  | .list ss => compileStmts ss [] (fun _ => .ret .nil)
+  | .list ss => compileStmts false ss [] (fun _ => .ret .nil)
   | _ => .ret .nil
 
 /-! ### canonical text (same as harness/spec.go `showVal`) -/
